@@ -326,3 +326,42 @@ impl Derivative {
 }
 """.replace("LIT_PLUS", "14090479106711026708u64")
     return s
+
+
+PY_UNARY = ["recip", "sqrt", "cbrt", "exp", "exp2", "exp_m1", "ln", "log2", "log10", "ln_1p", "sin", "cos", "tan", "asin", "acos", "atan",
+            "sinh", "cosh", "tanh", "asinh", "acosh", "atanh", "sph_j0", "sph_j1", "sph_j2", "neg"]
+
+
+def generate_py():
+    """abstract wrapped number `Inner` for the Python wrapper unit (C17): every Rust operation is an uninterpreted function;
+    the wrapper contracts say which one a Python method forwards to, with which operands in which order"""
+    o = []
+    w = o.append
+    w("\n// ===================== wrapped-number model for the Python wrapper unit (C17) =====================\n")
+    w("#[verifier::external_body] pub struct Inner { v: u8 }\npub struct PyErr { pub v: u8 }\npub type PyResult<T> = Result<T, PyErr>;\n")
+    for f in PY_UNARY:
+        w(f"pub uninterp spec fn i_{f}(x: Inner) -> Inner;\n")
+    w("pub uninterp spec fn i_powi(x: Inner, n: int) -> Inner;\npub uninterp spec fn i_powf(x: Inner, n: real) -> Inner;\npub uninterp spec fn i_powd(x: Inner, n: Inner) -> Inner;\n")
+    w("pub uninterp spec fn i_log(x: Inner, b: real) -> Inner;\npub uninterp spec fn i_mul_add(x: Inner, a: Inner, b: Inner) -> Inner;\npub uninterp spec fn i_from_re(r: real) -> Inner;\n")
+    w("pub uninterp spec fn i_add_f(x: Inner, f: real) -> Inner;\npub uninterp spec fn i_mul_f(x: Inner, f: real) -> Inner;\npub uninterp spec fn i_to_string(x: Inner) -> Seq<char>;\n")
+    w("impl Clone for Inner { #[verifier::external_body] fn clone(&self) -> (r: Inner) ensures r == *self { unimplemented!() } }\n")
+    w("impl Inner {\n")
+    for f in PY_UNARY:
+        if f == "neg":
+            continue
+        w(f"  #[verifier::external_body] pub fn {f}(&self) -> (r: Inner) ensures r == i_{f}(*self) {{ unimplemented!() }}\n")
+    w("  #[verifier::external_body] pub fn sin_cos(&self) -> (r: (Inner, Inner)) ensures r.0 == i_sin(*self), r.1 == i_cos(*self) { unimplemented!() }\n")
+    w("  #[verifier::external_body] pub fn powi(&self, n: i32) -> (r: Inner) ensures r == i_powi(*self, n as int) { unimplemented!() }\n")
+    w("  #[verifier::external_body] pub fn powf(&self, n: Fl) -> (r: Inner) ensures r == i_powf(*self, n@) { unimplemented!() }\n")
+    w("  #[verifier::external_body] pub fn powd(&self, n: Inner) -> (r: Inner) ensures r == i_powd(*self, n) { unimplemented!() }\n")
+    w("  #[verifier::external_body] pub fn log(&self, b: Fl) -> (r: Inner) ensures r == i_log(*self, b@) { unimplemented!() }\n")
+    w("  #[verifier::external_body] pub fn mul_add(&self, a: Inner, b: Inner) -> (r: Inner) ensures r == i_mul_add(*self, a, b) { unimplemented!() }\n")
+    w("  #[verifier::external_body] pub fn from_re(re: Fl) -> (r: Inner) ensures r == i_from_re(re@) { unimplemented!() }\n")
+    w("  #[verifier::external_body] pub fn to_string(&self) -> (r: String) ensures r@ == i_to_string(*self) { unimplemented!() }\n")
+    w("}\n")
+    for tr, m, fn_ in [("Add", "add", "i_add_f"), ("Mul", "mul", "i_mul_f")]:
+        w(spec_ops2(tr, "Inner", "Fl", "Inner", "true", ""))
+        w(f"impl core::ops::{tr}<Fl> for Inner {{ type Output = Inner; #[verifier::external_body] fn {m}(self, rhs: Fl) -> (r: Inner) ensures r == {fn_}(self, rhs@) {{ unimplemented!() }} }}\n")
+    w(spec_ops2("Neg", "Inner", "", "Inner", "true", ""))
+    w("impl core::ops::Neg for Inner { type Output = Inner; #[verifier::external_body] fn neg(self) -> (r: Inner) ensures r == i_neg(self) { unimplemented!() } }\n")
+    return "".join(o)
